@@ -383,7 +383,14 @@ def fam_until(E, mode, real=False):
 
     env.process(ticker('a', p1))
     env.process(ticker('b', p2))
-    if mode != 'date':
+    # the until-event may have been triggered before the (not yet started) environment runs:
+    # it still has to be processed - callbacks exactly once - and run() ends at once with its value
+    pre = mode == 'event' and E.flag('pre')
+    calls = []
+    ev.callbacks.append(lambda e: calls.append(e))
+    if pre:
+        ev.succeed(value)
+    elif mode != 'date':
         env.process(firer())
     res = exc = None
     from ..probe import Probe
@@ -407,6 +414,16 @@ def fam_until(E, mode, real=False):
         return
     if mode == 'event':
         E.prove(res is value, 'run-returns-the-value-of-the-until-event')
+    if pre:
+        E.reach('until-event-triggered-before-the-run')
+        # (for an event triggered *during* the run the simulation stops in the turn the trigger
+        # is noticed; whether its other callbacks still run then is not judged here)
+        E.prove(len(calls) == 1 and calls[0] is ev and ev.processed,
+                'callbacks-invoked-exactly-once', ('%d calls, processed %r', len(calls), ev.processed))
+        E.prove(EQ(env.now, 0), 'run-stops-exactly-at-until', ('env.now %r', env.now))
+        for e in log.events:
+            E.prove(LE(e[2], 0), 'nothing-runs-after-until', ('%r at %r', e[:2], e[2]))
+        return
     E.prove(EQ(env.now, T), 'run-stops-exactly-at-until',
             ('until %r, env.now afterwards %r', T, env.now))
     for e in log.events:
@@ -659,7 +676,8 @@ FAMILIES = [
     Family('until_date', fam_until, quick=dict(mode='date'), thorough=dict(mode='date', real=True),
            reach=['date'], bounds='env.run(until=T)'),
     Family('until_event', fam_until, quick=dict(mode='event'), thorough=dict(mode='event'),
-           reach=['event'], bounds='env.run(until=event)'),
+           reach=['event', 'until-event-triggered-before-the-run'],
+           bounds='env.run(until=event), the event triggered by a process at a symbolic date or before the run'),
     Family('until_failing', fam_until, quick=dict(mode='failing-event'),
            thorough=dict(mode='failing-event'), reach=['failing'],
            bounds='env.run(until=event that fails)'),
